@@ -48,7 +48,7 @@ def obligations(tier):
         repo=UNITS + ["open_read.c", "substdio.c"], lib=["arena_stralloc.c", "ideal_substdio.c", "ideal_getln.c"],
         defines={"ARENA_CAP": 64, "ARENA_SLOTS": 8}, sysrename=["open", "close", "read"],
         grid=[{"CH": c, "RL": r} for (c, r) in (((0, 4), (1, 3)) if tier == "quick" else ((0, 4), (1, 4), (0, 6), (1, 6)))],
-        unwind_default=lambda p: p["RL"] + 8, timeout=600,
+        unwind_default=lambda p: p["RL"] + 8, timeout=600 if tier == "quick" else 2400,
         functions=["qmail-send.c:pass_dochan", "qmail-send.c:job_open", "qmail-send.c:job_avail", "qmail-send.c:fnmake_chanaddr"],
         cuts=["getinfo -> symbolic result", "nextretry -> observed, symbolic result (C15 nextretry obligation)", "del_avail -> symbolic",
               "del_start, job_close -> observed", "prioq_* -> one-element queue kept by the harness (C15 prioq_step)", "getln -> ideal stream"],
